@@ -134,7 +134,7 @@ def translate(ctx, genbin):
 # --------------------------------------------------------------------------- request generator
 
 METHODS = ["GET", "POST", "PUT", "DELETE", "PATCH"]
-BODY_KINDS = ["valid", "empty", "truncated", "wrongtype", "big", "deep"]
+BODY_KINDS = ["valid", "empty", "truncated", "wrongtype", "degenerate", "big", "deep"]
 ID_KINDS = ["valid", "invalid", "wrong", "empty"]
 
 REPLICA_STATES = [dict(kind="initial"), dict(kind="closed"), dict(kind="open"), dict(kind="dirty", snaps=0),
@@ -224,11 +224,77 @@ def wrong_types(v, rng):
     return "x"
 
 
-def make_body(kind, valid, rng, big_n=1 << 20, deep_n=100000):
+HUGE = 9223372036854775808          # 2^63: overflows int64
+
+
+def _set(v, path, x):
+    """copy of v with the value at path (list of keys) replaced by x"""
+    if not path:
+        return x
+    c = dict(v)
+    c[path[0]] = _set(v[path[0]], path[1:], x)
+    return c
+
+
+def _fields(v, pre=()):
+    if isinstance(v, dict):
+        for k in sorted(v):
+            yield pre + (k,), v[k]
+            for f in _fields(v[k], pre + (k,)):
+                yield f
+
+
+def degenerate_variants(valid):
+    """Bodies of the VALID shape (decodable into the handler's input type, or differing from it in one
+    field only) with degenerate values: every list field [], [""] and [null]; every string field "" (and,
+    where the API carries a number in a string, "0", "-1", a 24-digit number, "abc"); every number 0, -1,
+    2^63, -2^63; every boolean flipped; every field null; every field dropped; all fields null; the empty
+    object; unknown extra fields. Deterministic, in a fixed order."""
+    out = []
+    if not isinstance(valid, dict):
+        return [valid]
+    for path, x in _fields(valid):
+        path = list(path)
+        vs = [None]
+        if isinstance(x, list):
+            vs += [[], [""], [None]]
+        elif isinstance(x, bool):
+            vs += [not x]
+        elif isinstance(x, (int, float)):
+            vs += [0, -1, HUGE, -HUGE]
+        elif isinstance(x, str):
+            vs += [""]
+            if x.lstrip("-").isdigit():
+                vs += ["0", "-1", "9" * 24, "abc"]
+            else:
+                vs += [" ", "/", "../" + x]
+        elif isinstance(x, dict):
+            vs += [{}]
+        for nv in vs:
+            out.append(_set(valid, path, nv))
+        if len(path) == 1:
+            out.append({k: v for k, v in valid.items() if k != path[0]})       # field absent
+    out.append({k: None for k in valid})
+    out.append({})
+    out.append(dict(valid, zzUnknownField=1, zzNested={"a": [1, None, {"b": ""}]}))               # unknown extra fields
+    out.append(dict(valid, id="x", type="y", actions={"x": "y"}, links={}))                       # the embedded Resource's own fields
+    seen, uniq = set(), []
+    for o in out:
+        k = json.dumps(o, sort_keys=True)
+        if k not in seen:
+            seen.add(k)
+            uniq.append(o)
+    return uniq
+
+
+def make_body(kind, valid, rng, big_n=1 << 20, deep_n=100000, variant=None):
     """returns dict(b=...) or dict(bgen=...)"""
     js = json.dumps(valid)
     if kind == "valid":
         return dict(b=js)
+    if kind == "degenerate":
+        vs = degenerate_variants(valid)
+        return dict(b=json.dumps(vs[(rng.randrange(len(vs)) if variant is None else variant) % len(vs)]))
     if kind == "empty":
         return dict(b="")
     if kind == "truncated":
@@ -273,10 +339,13 @@ class Gen:
             rs = [r for r in routes[t] if not r["path"].startswith("/debug/")]
             rs.sort(key=lambda r: (r["path"], ",".join(r["queries"] or []), ",".join(r["methods"] or [])))
             self.routes[t] = rs
+            for r in rs:
+                for m in (r["methods"] or []):
+                    REGISTERED.add((t, m, r["path"], "&".join(r["queries"] or [])))
         self.to = 2500 if quick else 5000
         self.quick = quick
 
-    def req(self, target, route, method=None, body="valid", idk="valid", idx=None, valid=None):
+    def req(self, target, route, method=None, body="valid", idk="valid", idx=None, valid=None, variant=None):
         rng = self.rng
         m = method or (route["methods"] or ["GET"])[0]
         q = "&".join(route["queries"] or [])
@@ -289,7 +358,8 @@ class Gen:
         if q:
             r["q"] = q
         big = (1 << 20) if (not self.quick or rng.random() < 0.3) else (1 << 16)
-        r.update(make_body(body, valid if valid is not None else valid_body(target, route["path"], q, rng), rng, big_n=big))
+        r.update(make_body(body, valid if valid is not None else valid_body(target, route["path"], q, rng), rng, big_n=big,
+                           variant=variant))
         return r
 
     def route(self, target, path, query=""):
@@ -349,6 +419,36 @@ class Gen:
                     idxs = list(range(max(1, len(st.get("replicas") or []))))
                 for idx in idxs:
                     cases.append(self.case(target, st, [self.req(target, r, idx=idx), self.req(target, look)]))
+        return cases
+
+    def action_routes(self, target):
+        """every non-GET route (all actions of both routers, also those whose handler reads no body)"""
+        return [r for r in self.routes[target] if (r["methods"] or ["GET"])[0] != "GET" and r["path"] != "/metrics"]
+
+    def degenerate(self, target, all_states=False):
+        """every action route x EVERY degenerate variant of its valid body, each alone in a fresh child in the
+        route's primary states (controller: no replica attached, and rf RW replicas attached; replica: open and
+        dirty); additionally packed four per child in the other states (rotating in the quick tier)."""
+        cases = []
+        sts = self.states(target)
+        prim = [s for s in sts if s["kind"] in (("no-replica", "rf3-attached") if target == "controller" else ("open", "dirty"))]
+        prim = [s for i, s in enumerate(prim) if s["kind"] not in [p["kind"] for p in prim[:i]]]
+        others = [s for s in sts if s not in prim]
+        look = self.route(target, "/v1/replicas")
+        k = 0
+        for r in self.action_routes(target):
+            q = "&".join(r["queries"] or [])
+            base = valid_body(target, r["path"], q, self.rng)
+            n = len(degenerate_variants(base))
+            for st in prim:
+                for v in range(n):
+                    cases.append(self.case(target, st, [self.req(target, r, body="degenerate", valid=base, variant=v, idx=1 if st.get("replicas") else 0),
+                                                        self.req(target, look)]))
+            for st in (others if all_states else [others[(k + j) % len(others)] for j in range(2)]):
+                for v0 in range(0, n, 4):
+                    cases.append(self.case(target, st, [self.req(target, r, body="degenerate", valid=base, variant=v)
+                                                        for v in range(v0, min(n, v0 + 4))]))
+            k += 1
         return cases
 
     def chain_matrix(self):
@@ -438,15 +538,23 @@ def trim(case, out):
     return dict(target=case["target"], state=case["state"], reqs=[dict(r) for r in case["reqs"][:at + 1]])
 
 
+REGISTERED = set()     # (target, method, path template, query) of the real routers, filled by Gen
+
+
 def signature(case, out):
-    """what identifies a violation class: kind + the route of the request at which it showed"""
+    """what identifies a violation class: kind + the route of the request at which it showed (the action
+    query counts only where the router registers it for that method and path: DELETE /v1/replicas/1?action=x
+    is the route DELETE /v1/replicas/{id})"""
     at = out.get("at", -1)
     r = case["reqs"][at] if 0 <= at < len(case["reqs"]) else case["reqs"][-1]
-    return (case["target"], out["violation"], r["m"], re.sub(r"/replicas/[^/?]+", "/replicas/{id}", re.sub(r"/volumes/[^/?]+", "/volumes/{id}", r["p"])),
-            action_of(r.get("q", "")))
+    path = re.sub(r"/replicas/[^/?]*", "/replicas/{id}", re.sub(r"/volumes/[^/?]*", "/volumes/{id}", r["p"]), count=1)
+    act = action_of(r.get("q", ""))
+    if act and REGISTERED and (case["target"], r["m"], path, "action=" + act) not in REGISTERED:
+        act = ""
+    return (case["target"], out["violation"], r["m"], path, act)
 
 
-def shrink(ctx, fuzzbin, case, out, rounds=4):
+def shrink(ctx, fuzzbin, case, out, rounds=8):
     """greedy: drop requests before the failing one while the same class of violation persists;
     then try simpler states."""
     sig = signature(case, out)
